@@ -55,6 +55,20 @@ const (
 	matchResultOptionalNoData                    // statement has no data and is optional
 )
 
+// rank orders the results from the weakest to the strongest: False < NoData < OptionalNoData < True.
+func (r matchResult) rank() int {
+	switch r {
+	case matchResultFalse:
+		return 0
+	case matchResultNoData:
+		return 1
+	case matchResultOptionalNoData:
+		return 2
+	default:
+		return 3
+	}
+}
+
 // matchStatement evaluate the policy against the given ipld.Node and returns:
 // - matchResultTrue: if the selector matched and the statement evaluated to true.
 // - matchResultFalse: if the selector matched and the statement evaluated to false.
@@ -140,36 +154,38 @@ func matchStatement(cur Statement, node ipld.Node) (_ matchResult, leafMost Stat
 		}
 	case KindAnd:
 		if s, ok := cur.(connective); ok {
+			// the result is the weakest of the operands' results (False < NoData < OptionalNoData < True),
+			// so that it doesn't depend on the order of the operands
+			best, bestLeaf := matchResultTrue, Statement(nil)
 			for _, cs := range s.statements {
 				res, leaf := matchStatement(cs, node)
-				switch res {
-				case matchResultNoData, matchResultOptionalNoData:
-					return res, leaf
-				case matchResultTrue:
-					// continue
-				case matchResultFalse:
-					return matchResultFalse, leaf
+				if res.rank() < best.rank() {
+					best, bestLeaf = res, leaf
+				}
+				if best == matchResultFalse {
+					break
 				}
 			}
-			return matchResultTrue, nil
+			return best, bestLeaf
 		}
 	case KindOr:
 		if s, ok := cur.(connective); ok {
 			if len(s.statements) == 0 {
 				return matchResultTrue, nil
 			}
+			// the result is the strongest of the operands' results (False < NoData < OptionalNoData < True),
+			// so that it doesn't depend on the order of the operands
+			best, bestLeaf := matchResultFalse, cur
 			for _, cs := range s.statements {
 				res, leaf := matchStatement(cs, node)
-				switch res {
-				case matchResultNoData, matchResultOptionalNoData:
-					return res, leaf
-				case matchResultTrue:
-					return matchResultTrue, leaf
-				case matchResultFalse:
-					// continue
+				if res.rank() > best.rank() {
+					best, bestLeaf = res, leaf
+				}
+				if best == matchResultTrue {
+					return matchResultTrue, nil
 				}
 			}
-			return matchResultFalse, cur
+			return best, bestLeaf
 		}
 	case KindLike:
 		if s, ok := cur.(wildcard); ok {
@@ -199,22 +215,22 @@ func matchStatement(cur Statement, node ipld.Node) (_ matchResult, leafMost Stat
 			if it == nil {
 				return matchResultFalse, cur // not a list
 			}
+			// same rule as "and", over the elements
+			best, bestLeaf := matchResultTrue, Statement(nil)
 			for !it.Done() {
 				_, v, err := it.Next()
 				if err != nil {
 					panic("should never happen")
 				}
 				matchRes, leaf := matchStatement(s.statement, v)
-				switch matchRes {
-				case matchResultNoData, matchResultOptionalNoData:
-					return matchRes, leaf
-				case matchResultTrue:
-					// continue
-				case matchResultFalse:
-					return matchResultFalse, leaf
+				if matchRes.rank() < best.rank() {
+					best, bestLeaf = matchRes, leaf
+				}
+				if best == matchResultFalse {
+					break
 				}
 			}
-			return matchResultTrue, nil
+			return best, bestLeaf
 		}
 	case KindAny:
 		if s, ok := cur.(quantifier); ok {
@@ -229,22 +245,22 @@ func matchStatement(cur Statement, node ipld.Node) (_ matchResult, leafMost Stat
 			if it == nil {
 				return matchResultFalse, cur // not a list
 			}
+			// same rule as "or", over the elements
+			best, bestLeaf := matchResultFalse, cur
 			for !it.Done() {
 				_, v, err := it.Next()
 				if err != nil {
 					panic("should never happen")
 				}
 				matchRes, leaf := matchStatement(s.statement, v)
-				switch matchRes {
-				case matchResultNoData, matchResultOptionalNoData:
-					return matchRes, leaf
-				case matchResultTrue:
+				if matchRes.rank() > best.rank() {
+					best, bestLeaf = matchRes, leaf
+				}
+				if best == matchResultTrue {
 					return matchResultTrue, nil
-				case matchResultFalse:
-					// continue
 				}
 			}
-			return matchResultFalse, cur
+			return best, bestLeaf
 		}
 	}
 	panic(fmt.Errorf("unimplemented statement kind: %s", cur.Kind()))
